@@ -45,7 +45,9 @@ func (n ScaleNote) MarshalYAML() (any, error) {
 func (n ScaleNote) GetDegree(x *ScaleNote, isSharp bool) (note.Degree, error) {
 	s := x.Semitone() - n.Semitone()
 	oct := note.Octave(1).Semitone()
-	if s < 0 {
+	// x is the note above n: only a letter below the letter of n belongs to the
+	// next octave, so that Cb over C stays a diminished unison (-1)
+	if x.Name < n.Name {
 		s += oct
 	}
 
